@@ -172,6 +172,15 @@ def gen_cases(rec, rng, tier):
         if i % 4 == rec.shard % 4:
             for lim in (10, 1000):
                 yield {'cls': cls, 'ref': RPa, 'n': 3 if len(RPa[1]) > 2 else 4, 'limit': lim, 'eps': ''}
+    # dense stack-neutral epsilon moves: a clique of k states has k configurations in its closure but k*k enabled moves; the limit
+    # counts expanded configurations, so with k <= limit < k*k the closure must still be complete
+    if rec.shard % 4 == 0:
+        for (k, lims) in ((4, (4, 5, 10)), (6, (6, 10, 30)), (36, (1000,))):
+            Q = ['e%02d' % i for i in range(k)] + ['acc']
+            T = [(p, None, None, q, None) for p in Q[:k] for q in Q[:k]] + [(Q[k - 1], None, None, 'acc', None), (Q[0], 'a', None, Q[1 % k], None)]
+            RPk = pd.make(Q, 'a', ['X'], T, Q[0], ['acc'])
+            for lim in lims:
+                yield {'cls': 'dense_epsilon_clique_%d' % k, 'ref': RPk, 'n': 2, 'limit': lim, 'eps': ''}
     # long words on counting / matching PDAs (stacks of 8..40 symbols, runs of equal letters)
     if rec.shard % 4 == 3:
         anbn = pd.make(['q0', 'q1', 'q2', 'q3'], 'ab', ['$', 'A'], [('q0', None, None, 'q1', '$'), ('q1', 'a', None, 'q1', 'A'), ('q1', None, None, 'q2', None),
